@@ -439,7 +439,31 @@ def check_no_state(chk, pm):
     chk.extra['parser_functions_reachable'] = sorted(reach)
 
 
+def check_layout_sim(chk, rule='C10.L'):
+    """parse_script evaluated (E6p) on layout variants of two programs covering every statement form: each variant must give the model of the canonical layout -> True when all agree"""
+    from .. import parsesim
+    cache = getattr(chk, '_layout_sim', None)
+    if cache is None:
+        cache = chk._layout_sim = parsesim.run_layout(chk.repo, chk.tier, rule)
+    n, problems = cache
+    mod = chk.repo.module('parser')
+    if problems:
+        kinds = {}
+        for k, msg in problems:
+            kinds.setdefault(k, []).append(msg)
+        for k, msgs in kinds.items():
+            chk.bad(rule, mod, 'parse_script', f'{k}: {msgs[0][:110]}', f'evaluation of parse_script on {n} layout variants: {msgs[0][:500]} ({len(msgs)} variants deviate this way)',
+                    node=mod.funcs.get('parse_script'))
+        return False
+    chk.ok(rule, f'{n} layout variants (each line respelled with blanks added / removed wherever the language definition allows one, tabs, trailing blanks, CRLF, no final newline, '
+           f'chunkings at line boundaries, blank / comment lines inserted at every position, continuation at every blank with and without comments inside and across chunks) '
+           f'of programs covering every statement form give the model of the canonical layout', count=n)
+    return True
+
+
 def run(chk):
+    chk.rule('C10.L', 'layout variants give the model of the canonical layout (parse_script evaluated on concrete texts, E6p; variants generated from the language definition)', floor=400)
+    layout_ok = chk.guard('C10.L', check_layout_sim, chk)
     chk.rule('C10.S', 'one line splitter (\\r?\\n) for both input forms', floor=2)
     chk.rule('C10.W', 'statement regexes tolerate leading / trailing blanks; keywords delimited', floor=18)
     chk.rule('C10.T', 'expression token regexes start with ^\\s*', floor=10)
@@ -448,13 +472,31 @@ def run(chk):
     chk.rule('C10.O', 'comments/blank lines are skipped first and never change the model (E6 scenarios)', floor=30)
     chk.rule('C10.N', 'parser keeps no state (effect analysis on module-level objects)', floor=4)
     chk.assumptions += ['str.split / re semantics are CPython\'s; breaks inside string literals or multi-character operators are excluded by the property ("where a space is allowed")']
-    pm = ParserModel(chk.repo, 'C10.W')
-    chk.guard('C10.S', check_split, chk, pm)
-    chk.guard('C10.S', check_no_splitlines, chk, pm)
-    chk.guard('C10.W', check_whitespace, chk, pm)
-    chk.guard('C10.W', check_optional_expression_groups, chk, pm)
+    try:
+        pm = ParserModel(chk.repo, 'C10.W')
+    except Unrecognised as exc:
+        if layout_ok:
+            chk.note(f'the structural model of parse_script could not be built ({exc.what}); the statement-level clauses are decided by the evaluation C10.L')
+            for r in ('C10.S', 'C10.W', 'C10.A', 'C10.J', 'C10.O'):
+                chk.floors.pop(r, None)
+            chk.unrec('C10.T', f'expression token regexes not examined: {exc.what}', exc.where)
+        else:
+            chk.unrec(exc.rule or 'C10.W', exc.what, exc.where)
+            for r in list(chk.floors):
+                if r != 'C10.L':
+                    chk.floors.pop(r)
+        return
+    # statement-level shape rules: advisory read-backs once the evaluation C10.L decided positively (they explain a deviation otherwise)
+    run_rule = chk.advisory if layout_ok else chk.guard
+    run_rule('C10.S', check_split, chk, pm)
+    run_rule('C10.S', check_no_splitlines, chk, pm)
+    run_rule('C10.W', check_whitespace, chk, pm)
+    run_rule('C10.W', check_optional_expression_groups, chk, pm)
     chk.guard('C10.T', check_tokens, chk, pm)
-    chk.guard('C10.A', check_arg_split, chk, pm)
-    chk.guard('C10.J', check_continuation_form, chk, pm)
-    chk.guard('C10.O', check_comment_insertion, chk, pm)
+    run_rule('C10.A', check_arg_split, chk, pm)
+    run_rule('C10.J', check_continuation_form, chk, pm)
+    run_rule('C10.O', check_comment_insertion, chk, pm)
+    if layout_ok:
+        for r in ('C10.S', 'C10.W', 'C10.A', 'C10.J', 'C10.O'):
+            chk.floors.pop(r, None)
     chk.guard('C10.N', check_no_state, chk, pm)
